@@ -452,15 +452,20 @@ def main(argv=None):
         print(f"  target {name}: {per_target[name]}")
     for sig, n in known_hit.items():
         print(f"KNOWN-FINDING: property={pid} {known[sig]} (sig={sig}, {n} cases excluded)")
+    # a missing required class next to real failures is usually their consequence (cases fail before they are
+    # classified), so violations win; with no violation a harness error makes the run inconclusive (exit 2)
+    hard = [e for e in errors if not e.startswith("required class")]
     for name, sig, n, detail, path in violations:
         print(f"  failure target={name} sig={sig} count={n} :: {detail[:300]}")
-        if not errors:
+        if not hard:
             print(f"VIOLATION property={pid} replay={path}")
-    if errors:
-        for e in errors:
-            print("HARNESS-ERROR:", e)
+    for e in errors:
+        print("HARNESS-ERROR:" if (e in hard or not violations) else "note:", e)
+    if hard:
         return 2
-    return 1 if violations else 0
+    if violations:
+        return 1
+    return 2 if errors else 0
 
 
 def selftest():
